@@ -398,7 +398,9 @@ def compose_eval_rule(ctx):
         methods = {nm: fi.node for nm, fi in comp.methods.items()}
         init = comp.methods.get("__init__")
         obj = Obj({}, methods)
+        obj.cls_name = "CompositeTransform"
         pe = PEval(obj)
+        pe.classes = {"CompositeTransform": methods, "InverseTransform": {nm: fi.node for nm, fi in invt.methods.items()}}
         stages_by_name = {}
         parts = [stages_by_name.setdefault(i, Stage("T%d" % i)) for i in names]
         if how == "ModuleList":
@@ -445,6 +447,38 @@ def compose_eval_rule(ctx):
                     break
             else:
                 res.ok("CompositeTransform.%s with %d part(s) = %s" % (direction, k, show(want)[:80]))
+    # nested wrappers: Composite([P, Inverse(Composite([A, B]))]) must be P, then B^-1, then A^-1 (and the
+    # reverse chain for its inverse) -- whatever the constructors do with parts that are wrappers themselves
+    classes = {"CompositeTransform": {nm: fi.node for nm, fi in comp.methods.items()}, "InverseTransform": {nm: fi.node for nm, fi in invt.methods.items()}}
+    try:
+        def build(cname, arg):
+            o = Obj({}, classes[cname])
+            o.cls_name = cname
+            pe_ = PEval(o)
+            pe_.classes = classes
+            pe_.call_method(classes[cname]["__init__"], [arg])
+            return o, pe_
+
+        inner, _ = build("CompositeTransform", [Stage("TA"), Stage("TB")])
+        inv, _ = build("InverseTransform", inner)
+        outer, pe = build("CompositeTransform", [Stage("TP"), inv])
+        chains = {"forward": [("TP", "fwd"), ("TB", "inv"), ("TA", "inv")], "inverse": [("TA", "fwd"), ("TB", "fwd"), ("TP", "inv")]}
+        for direction, chain in chains.items():
+            want, lds = x, []
+            for nm, d in chain:
+                lds.append(("ld", nm, d, want, cx))
+                want = ("out", nm, d, want, cx)
+            r = pe.call_method(classes["CompositeTransform"][direction], [Sym(x), Sym(cx)])
+            if not (isinstance(r, tuple) and len(r) == 2 and all(isinstance(v, Sym) for v in r)):
+                raise PUndecided("nested %s does not return a pair of tensors" % direction)
+            fi = comp.methods[direction]
+            if r[0].term != want or r[1].term != mk_sum(*lds):
+                what = "outputs `%s` (the composition is `%s`)" % (show(r[0].term)[:130], show(want)[:130]) if r[0].term != want else "log-det `%s` (the composition gives `%s`)" % (show(r[1].term)[:130], show(mk_sum(*lds))[:130])
+                res.fail(Finding("CMP-EVAL", fi.module, fi.qualname, fi.node, "CompositeTransform([TP, InverseTransform(CompositeTransform([TA, TB]))]).%s: %s" % (direction, what), construct="nested wrappers, %s" % direction))
+            else:
+                res.ok("nested Composite([P, Inverse(Composite([A, B]))]).%s = %s" % (direction, show(want)[:80]))
+    except (PUndecided, PRaises) as ex:
+        res.undecide("CompositeTransform([P, InverseTransform(CompositeTransform([A, B]))])", str(ex))
     # InverseTransform
     methods = {nm: fi.node for nm, fi in invt.methods.items()}
     obj = Obj({}, methods)
